@@ -1116,8 +1116,13 @@ def _run_ola(blks, kw, args=(), strategy="list"):
             out.append(x)
     except Exception as e:
         err = _err_obs(e)
-    return {"out": [enc(x) for x in out], "err": err,
-            "floats": sum(1 for x in out if isinstance(x, float))}
+    try:
+        eo = [enc(x) for x in out]
+    except Exception:        # samples that are not numbers (a window of tuples that went through): reported, never a crash
+        if err is None:
+            err = {"kind": "none", "tag": "output-items-are-not-numbers:" + repr(out[:3])[:60]}
+        eo = []
+    return {"out": eo, "err": err, "floats": sum(1 for x in out if isinstance(x, float))}
 
 
 def impl(c):
